@@ -172,12 +172,14 @@ class Obligation:
                 reason = "E2 counterexample without native replay: " + reason
             if status == "inconclusive" and self.fallback_native and self.ctx.native_replay is not None:
                 # API-level confirmation: the native battery must exhibit a property violation on the same tree
-                dev = self.ctx.native_replay(self.fallback_native, [], "dev")
-                self.ctx.native_runs += 1
-                if dev.get("outcome") == "panic":
-                    status = "violation"
-                    native = {"native_dev": dev, "native_release": {}, "playback_values": [], "harness": self.fallback_native}
-                    reason = "confirmed at API level by %s (%s); solver counterexample: %s" % (self.fallback_native, dev.get("message", "")[:300], reason)
+                for fb in (self.fallback_native if isinstance(self.fallback_native, (list, tuple)) else [self.fallback_native]):
+                    dev = self.ctx.native_replay(fb, [], "dev")
+                    self.ctx.native_runs += 1
+                    if dev.get("outcome") == "panic":
+                        status = "violation"
+                        native = {"native_dev": dev, "native_release": {}, "playback_values": [], "harness": fb}
+                        reason = "confirmed at API level by %s (%s); solver counterexample: %s" % (fb, dev.get("message", "")[:300], reason)
+                        break
             return self.ctx.record(self.name, status, reason, stats, self.bound, enc, mtxt, native)
         if inc:
             return self.ctx.record(self.name, "inconclusive", "; ".join(p[1] for p in inc)[:500], stats, self.bound, enc)
